@@ -153,8 +153,11 @@ func Archive(dst *model.UserRow, src *model.User) { dst.Rank = 2 }
 // imports, interfaces and notations so that hidden nondeterminism (random
 // markers, map iteration over the import table) has something to bite on.
 func acceptedInputs() []Input {
+	// every setup file of the library ends with a declaration that is carried over: one line far longer than the
+	// 64 KiB a line scanner takes by default
+	blob := "\n// Blob is carried over.\nconst Blob = \"" + strings.Repeat("0123456789abcdef", 4400) + "\"\n"
 	mk := func(name, pkg, setup string) Input {
-		return Input{Name: name, Pkg: pkg, Setup: setup, Rest: restCommon(pkg), Accepts: true}
+		return Input{Name: name, Pkg: pkg, Setup: setup + blob, Rest: restCommon(pkg), Accepts: true}
 	}
 	var ins []Input
 	ins = append(ins, mk("simple", "conv", `//go:build convergen
@@ -171,9 +174,6 @@ type Convergen interface {
 	// :typecast
 	OwnerLabel(src *Pet) (dst *PetDTO)
 }
-
-// Blob is carried over: one line far longer than the 64 KiB a line scanner takes by default.
-const Blob = "`+strings.Repeat("0123456789abcdef", 4400)+`"
 `))
 	ins = append(ins, mk("imports", "conv", `//go:build convergen
 
@@ -258,6 +258,12 @@ type A interface {
 
 // :convergen
 type B interface {
+	// notations that address no member of the destination (a renamed field, a slip of the pen): whatever the
+	// tool has to say about them, it says it the same way every time
+	// :map Name Nowhere1
+	// :literal Nowhere2 "x"
+	// :map Name Nowhere3
+	// :literal Nowhere4 1
 	One(*Pet) *PetDTO
 	Two(*Owner) *OwnerDTO
 	// :typecast
@@ -386,7 +392,7 @@ type Convergen interface {
 	ins = append(ins, Input{Name: "solo", Pkg: "solo", Setup: soloSetup(""), Rest: soloRest, Accepts: true})
 	ins = append(ins, Input{Name: "solo2", Pkg: "solo", Setup: soloSetup("\t// :literal Note \"n\"\n\tInToOut2(*In) *Out\n"), Rest: soloRest, Accepts: true})
 	// the same as "simple" under a long package name (truncation points inside the package identifier)
-	long := mk("longname", "longpkgname", strings.Replace(ins[0].Setup, "package conv", "package longpkgname", 1))
+	long := mk("longname", "longpkgname", strings.Replace(strings.TrimSuffix(ins[0].Setup, blob), "package conv", "package longpkgname", 1))
 	ins = append(ins, long)
 	return ins
 }
